@@ -680,18 +680,13 @@ impl Expression for FunctionCall {
         self.expr.resolve(ctx).map_err(|err| match err {
             ExpressionError::Abort { .. }
             | ExpressionError::Fallible { .. }
-            | ExpressionError::Missing { .. } => {
+            | ExpressionError::Missing { .. }
+            // closures turn `return` into the value of their iteration, so a `return`
+            // arriving here comes from an argument and ends the program
+            | ExpressionError::Return { .. } => {
                 // propagate the error
                 err
             }
-            ExpressionError::Return { span, .. } => ExpressionError::Error {
-                message: "return cannot be used inside closures".to_owned(),
-                labels: vec![Label::primary(
-                    "return cannot be used inside closures",
-                    span,
-                )],
-                notes: Vec::new(),
-            },
             ExpressionError::Error {
                 message,
                 mut labels,
